@@ -23,6 +23,7 @@
 
 #include <primesieve/CpuInfo.hpp>
 #include <primesieve/ParallelSieve.hpp>
+#include <primesieve/pmath.hpp>
 #include <primesieve/primesieve_error.hpp>
 #include <primesieve/RiemannR.hpp>
 #include <primesieve/Vector.hpp>
@@ -32,6 +33,7 @@
 #include <exception>
 #include <iostream>
 #include <iomanip>
+#include <limits>
 #include <sstream>
 #include <string>
 
@@ -156,6 +158,12 @@ void nthPrime(const CmdOptions& opts)
   if (opts.numbers.empty())
     throw primesieve_error("missing n number");
 
+  // n is an int64_t in the API, larger numbers would be
+  // silently converted to negative numbers and n * 20
+  // below would overflow.
+  if (opts.numbers[0] > (uint64_t) std::numeric_limits<int64_t>::max() / 20)
+    throw primesieve_error("nth prime: n is too large");
+
   ParallelSieve ps;
   int64_t n = opts.numbers[0];
   uint64_t start = 0;
@@ -171,7 +179,7 @@ void nthPrime(const CmdOptions& opts)
 
   uint64_t nthPrime = 0;
   ps.setStart(start);
-  ps.setStop(start + std::abs(n * 20));
+  ps.setStop(checkedAdd(start, (uint64_t) n * 20));
 
   if (!opts.quiet)
     printSettings(ps);
